@@ -101,6 +101,7 @@ Section NoClosed.
   Lemma n_apply_one pl g s p : nstep s (apply_one sc pl g s p).
   Proof.
     unfold apply_one. destruct (p_local p) as [l|]; [|apply n_refl].
+    destruct (negb (kind_known sc (r_known s) (p_id p))); [ns|].
     pose proof (step_policy_apply_filter sc Qn Ct Ct_refl s (p_id p)) as P.
     destruct (policy_apply_filter sc s (p_id p)) as [s1 f1]. cbn [fst] in P.
     destruct (match f1 with FPass => _ | _ => _ end); try ns.
